@@ -417,6 +417,58 @@ def HStep.accepted? (F : FailDiscipline) : HStep → Option Step
   | .bad (.conv a) => if (execEvents F.convertEvents a ⟨Option.none, 0⟩).2 then Option.none else a.label?.map Step.conv
   | .bad _ => Option.none
 
+/-! ### the `copy` flag as the caller wrote it (round 4, class "L3 sharper")
+
+`TimeArray.__new__` tests `copy` with ONE comparison whose form (`== False`, truthiness, `is None` …) is GENERATED from the
+source (`Generated.C01Ctor.copyTest`).  The caller may hand over any value class (`FlagVal`: `None`, `0`, `0.0`, `''`, `[]`,
+`np.False_`, `1`, `'False'`, …).  When the test holds the NO-COPY branch is taken: data that are not an int64 array (or a
+time object) are refused, int64 data are taken AS BASE UNITS (picoseconds), unscaled; otherwise the data are converted
+(`ctorNums`).  Either way the label is the requested unit and the factor that of the label (constructor path). -/
+
+/-- what the constructor is given: bare numbers (`int64` = an ndarray / numpy scalar of dtype int64) or a time object -/
+inductive CtorData where
+  | nums (int64 : Bool) (scalar : Bool) (xs : List Num)
+  | time (t : TVal)
+  deriving Repr
+
+def Num.raw : Num → Int
+  | .int v => v
+  | .flt x => F64.rint x
+
+/-- `TimeArray(data, time_unit=u, copy=<v>)` under the flag test `form` -/
+def ctorFlag (form : FlagForm) (copy : FlagVal) (u : Option TimeUnit) : CtorData → Except Err TObj
+  | .time t => .ok (TObj.ofTVal (ctorFrom u t))          -- a time object is in base units already; both branches keep the instant
+  | .nums int64 scalar xs =>
+    if form.holds copy then
+      if int64 then .ok (TObj.ofTVal { ps := xs.map Num.raw, unit := u.getD .s, scalar := scalar })
+      else .error .valueError
+    else .ok (TObj.ofTVal (ctorNums u scalar xs))
+
+/-- today's source -/
+def ctorFlagCurrent := ctorFlag Generated.C01Ctor.copyTest
+
+def parseFlagVal? : String → Option FlagVal
+  | "none" => some .pyNone | "false" => some .pyFalse | "true" => some .pyTrue | "int0" => some .int0
+  | "float0" => some .float0 | "estr" => some .emptyStr | "elist" => some .emptyList | "npfalse" => some .npFalse
+  | "npbool0" => some .npFalse | "nptrue" => some .npTrue | "int1" => some .int1 | "strfalse" => some .strFalse
+  | _ => none
+
+/-- how ONE test reads a flag value: "the parameter was given" (a value to use / the option switched on) or not -/
+def testSaysGiven (f : FlagForm) (v : FlagVal) : Bool :=
+  match f with
+  | .isNone | .notTruthy | .eqFalse | .isFalse | .neTrue => !f.holds v
+  | _ => f.holds v
+
+/-- how the source reads the value `v` handed to parameter `param` of `fn`: `some true` = given, `some false` = as if it were
+`None` / left out, `none` = the tests of that parameter DISAGREE about `v` (one reads it as given, another as not given) or the
+parameter is not tested at all.  From the GENERATED table. -/
+def paramGivenIn (tests : List FlagTest) (fn param : String) (v : FlagVal) : Option Bool :=
+  match (tests.filter fun t => t.fn == fn && t.param == param).map (fun t => testSaysGiven t.form v) with
+  | [] => none
+  | b :: bs => if bs.all (· == b) then some b else none
+
+def paramGiven := paramGivenIn Generated.C01Ctor.flagTests
+
 /-! ### line protocol -/
 open Proto
 
@@ -553,6 +605,22 @@ def handle (args : List String) : String :=
   | ["ctor", u, sc, xs] => match parseUnitOpt? u, parseNums? xs with
     | some u, some xs => "ok " ++ showT (ctorNums u (sc = "1") xs)
     | _, _ => "bad-op"
+  | ["ctorflag", fl, u, dt, sc, xs] => match parseFlagVal? fl, parseUnitOpt? u, parseNums? xs with
+    | some fl, some u, some xs => match ctorFlagCurrent fl u (.nums (dt = "int64") (sc = "1") xs) with
+      | .ok o => "ok " ++ showO o
+      | .error _ => "err ValueError"
+    | _, _, _ => "bad-op"
+  | ["ctorflagfrom", fl, u, t] => match parseFlagVal? fl, parseUnitOpt? u, parseT? t with
+    | some fl, some u, some t => match ctorFlagCurrent fl u (.time t) with
+      | .ok o => "ok " ++ showO o
+      | .error _ => "err ValueError"
+    | _, _, _ => "bad-op"
+  | ["flagarg", fn, param, fl] => match parseFlagVal? fl with
+    | some v => match paramGiven fn param v with
+      | some true => "ok given"
+      | some false => "ok notgiven"
+      | none => "ok inconsistent"
+    | none => "bad-op"
   | ["ctorfrom", u, t] => match parseUnitOpt? u, parseT? t with
     | some u, some t => "ok " ++ showT (ctorFrom u t)
     | _, _ => "bad-op"
